@@ -413,4 +413,216 @@ Proof.
   - eapply osub_trans; [|exact Hos]. apply osub_models. reflexivity.
 Qed.
 
+(* ------------------------------------------------------------------ Part 5: load_parsed *)
+Variable LATEST name_definition_ref : N.
+
+Lemma WorldEff_keep nf w w' : LoadEffects.WorldEff nf w w' -> tkeep w w' /\ w_models w' = w_models w.
+Proof.
+  intros (_ & _ & Hm & Hj). split; auto. intros i n Hn. specialize (Hj i). rewrite Hn in Hj.
+  destruct (w_nodes w' i) as [n'|]; [|contradiction]. exists n'. split; auto. apply Hj.
+Qed.
+
+Lemma load_parsed_real m filename root st w r w' :
+  RealInvL w -> EChars root -> ERefs root (Parser.p_refs st) ->
+  (forall t w1 x, install PNone root w = Val (OK t, w1) ->
+     let w2 := mkWorld (w_nodes w1) (w_next w1)
+                       (w_files w1 ++ [mkFile m filename (Parser.p_version st) (Parser.p_standalone st)]) (w_models w1) in
+     nth_opt (w_models w2) (N.to_nat m) = Some x -> is_empty (m_files x) = false ->
+     merge_shared T LATEST name_definition_ref (fuel_of w2) (m_root x) (fold_right set_add [] (m_files x)) (it_id t)
+                  (N.of_nat (List.length (w_files w))) w2 = false) ->
+  r <> ER InvalidFileMerge ->
+  load_parsed T LATEST name_definition_ref m filename root st w = Val (r, w') -> RealInvL w'.
+Proof.
+  intros ((C & O) & CL & OR) EC ER Hshared Hrej H.
+  assert (Cw' : Core w') by (eapply load_parsed_core; eauto).
+  cut (NoOrphanP w' /\ CharsLeaf T w' /\ OriginsRef T w').
+  { intros (A & B & D). split; [split|split]; auto. }
+  clear Cw'. unfold load_parsed in H.
+  bstep H w0 wx E0; [|apply wget_inv in E0 as ([=] & _)]. apply wget_inv in E0 as ([= ->] & ->).
+  bstep H t w1 E1.
+  2:{ destruct (install_core _ _ _ _ _ C (or_introl eq_refl) E1) as (t' & [=] & _). }
+  destruct (install_core _ _ _ _ _ C (or_introl eq_refl) E1) as (t' & [= <-] & Eid & C1 & L1 & R1 & F1 & (nr & Hnr & Pnr) & Cl1).
+  destruct (install_extra _ _ _ _ _ C (or_introl eq_refl) E1) as (X1 & X2 & X3).
+  pose proof (LoadProofs.above_install (w_next w) _ _ _ _ _ (N.le_refl _) E1) as (_ & _ & _ & Hm1).
+  specialize (Hshared t w1).
+  set (base := w_next w) in *. set (re := it_id t) in *.
+  assert (O1 : NoOrphanP w1).
+  { apply NoOrphanP_OrphSubE. eapply OrphE_weaken; [|apply X1; apply NoOrphanP_OrphSubE; exact O].
+    cbn beta. intros x [[]|(_ & Hne)]. congruence. }
+  assert (CL1 : CharsLeaf T w1) by (apply X2; auto).
+  assert (TK1 : tkeep w w1).
+  { intros i n Hn. assert (allocated w i) as Ha by (eexists; eauto). apply C in Ha. rewrite F1 by exact Ha. eauto. }
+  assert (OR1 : OriginsRef T w1) by (eapply OriginsRef_keep; [apply osub_models; exact Hm1|exact TK1|exact OR]).
+  bstep H w1' wx E2; [|apply wget_inv in E2 as ([=] & _)]. apply wget_inv in E2 as ([= ->] & ->).
+  bstep H x0 wx E3; [|apply get_model_inv in E3 as (? & _ & [=] & _)]. apply get_model_inv in E3 as (x0' & Hx0 & [= ->] & ->).
+  bstep H ov wx E4; [|apply wl_inv in E4 as (? & _ & [=] & _)]. apply wl_inv in E4 as (ov' & _ & [= ->] & ->).
+  assert (Hroots_old : forall k r0, nth_error (roots w1) k = Some r0 -> r0 < base).
+  { intros k r0 Hk. rewrite R1 in Hk. destruct (c_roots _ C _ _ Hk) as (n & Hn & _). apply C. eexists; eauto. }
+  assert (Hold_par : forall c p, c < base -> par w1 c p -> p < base).
+  { intros c p Hc (n & Hn & Hp). rewrite F1 in Hn by auto. assert (Hp0 : par w c p) by (exists n; auto).
+    apply par_alloc in Hp0; auto. apply C. auto. }
+  assert (Hold_closed : forall p c, p < base -> lists w1 p c -> c < base).
+  { intros p c Hp (n & Hn & Hc). rewrite F1 in Hn by auto. assert (Hl : lists w p c) by (exists n; auto).
+    apply (c_up _ C) in Hl. destruct Hl as (nc & Hnc & _). apply C. eexists; eauto. }
+  destruct ov'.
+  - (* overlap *)
+    bstep H u wk Ek; [|apply kill_spec in Ek as ([=] & _)].
+    apply wfail_inv in H as (_ & ->).
+    destruct (kill_tkeep _ _ _ _ _ Ek) as (TKk & Hmk).
+    split; [|split].
+    + eapply kill_orph; [exact Ek|exact O1|]. intros c p Kc Hp.
+      destruct (killedb_false _ _ _ _ Kc) as [Hc|[Hc|[]]].
+      * apply killedb_old. eauto.
+      * exfalso. destruct Hp as (n & Hn & _). assert (allocated w1 c) as Ha by (eexists; eauto). apply C1 in Ha. lia.
+    + eapply kill_chars; eauto.
+    + eapply OriginsRef_keep; [apply osub_models; exact Hmk|exact TKk|exact OR1].
+  - bstep H u w2 E5; [|apply wput_inv in E5 as ([=] & _)]. apply wput_inv in E5 as (_ & ->).
+    set (w2 := mkWorld _ _ _ _) in *.
+    assert (S12 : same_tree w1 w2) by (apply st_models; reflexivity).
+    pose proof (Core_same_tree _ _ S12 C1) as C2.
+    assert (J2 : J w2) by (apply (J_nodes w1); [reflexivity|split; auto]).
+    assert (OR2 : OriginsRef T w2) by (eapply OriginsRef_keep; [apply osub_models; reflexivity|apply tkeep_nodes; reflexivity|exact OR1]).
+    bstep H x wx E6; [|apply get_model_inv in E6 as (? & _ & [=] & _)]. apply get_model_inv in E6 as (x' & Hx & [= ->] & ->).
+    bstep H rb w3 E7; [|apply wcatch_inv in E7 as (? & _ & [=])]. apply wcatch_inv in E7 as (rb' & E7 & [= ->]).
+    bstep H x3 wx E8; [|apply get_model_inv in E8 as (? & _ & [=] & _)]. apply get_model_inv in E8 as (x3' & Hx3 & [= ->] & ->).
+    bstep H w3' wx E9; [|apply wget_inv in E9 as ([=] & _)]. apply wget_inv in E9 as ([= ->] & ->).
+    bstep H keep wq E10; [|exfalso; exact (LoadProofs.errs_dfs_ids (fun _ => False) _ _ _ _ _ E10)].
+    pose proof (ro_dfs_ids _ _ _ _ _ E10) as ->.
+    bstep H u2 wk E11; [|apply kill_spec in E11 as ([=] & _)].
+    destruct rb' as [ub|eb].
+    2:{ exfalso. apply Hrej.
+        pose proof (LoadProofs.errs_merge_stage T LATEST name_definition_ref m x' re (N.of_nat (List.length (w_files w))) t st _ _ _ E7) as He.
+        red in He. subst eb.
+        apply wbind_inv in H as [(u3 & w5 & E12 & H) | (e5 & E12 & ->)]; [|discriminate E12].
+        apply wfail_inv in H as (-> & _). reflexivity. }
+    apply wret_inv in H as (_ & ->).
+    apply wbind_inv in E7 as [(ua & wa & Ea & Etail) | (e & _ & [=])].
+    (* the tail: index fills, then the file list *)
+    destruct (nfp_stage_tail m t st _ _ _ _ Etail) as (Tn & Tx & Tr).
+    apply wbind_inv in Etail as [(ui & wi & Ei & Etail) | (e & _ & [=])].
+    apply wbind_inv in Etail as [(ur & wr & Er & Etail) | (e & _ & [=])].
+    destruct (nfp_fill_identifiables m t _ _ _ _ Ei) as (Tni & _ & _).
+    destruct (nfp_fill_references m t _ _ _ _ Er) as (Tnr & _ & _).
+    assert (Href : forall wz, tkeep w1 wz -> forall key pos e, In (key, pos) (rev (Parser.p_refs st)) -> it_at t pos = Some e -> RefNode T wz e).
+    { intros wz TKz key pos e Hin He. eapply RefNode_tkeep; [exact TKz|].
+      destruct (X3 _ _ He) as (n & sub & Hn & Hs & Ht & _). exists n. split; auto. rewrite Ht.
+      eapply ER; [apply in_rev; exact Hin|exact Hs]. }
+    assert (Tail : tkeep w1 wa -> OriginsRef T wa -> OriginsRef T w3).
+    { intros TKa ORa.
+      assert (ORi : OriginsRef T wi).
+      { eapply OriginsRef_keep; [eapply osp_fill_identifiables; exact Ei|apply tkeep_nodes; exact Tni|exact ORa]. }
+      assert (ORr : OriginsRef T wr).
+      { eapply fill_refs_oref; [|exact ORi|exact Er]. apply Href.
+        eapply tkeep_trans; [exact TKa|apply tkeep_nodes; exact Tni]. }
+      eapply OriginsRef_keep; [|apply tkeep_nodes|exact ORr].
+      - eapply (osp_modify_model m); [|exact Etail]. intros y k l re0 Hk Hre. cbn in Hk. eauto.
+      - apply modify_model_inv in Etail as (y & _ & _ & ->). reflexivity. }
+    destruct (kill_tkeep _ _ _ _ _ E11) as (TKk & Hmk).
+    destruct (is_empty (m_files x')) eqn:Efirst.
+    + (* first load *)
+      assert (Hre_node : exists n, w_nodes w2 re = Some n /\ n_parent n = PNone).
+      { exists nr. split; [rewrite Eid; exact Hnr|exact Pnr]. }
+      destruct (first_load_core m re (N.of_nat (List.length (w_files w))) w2 (OK ua) wa C2 Hre_node) as (Ca & Na & Fa & Ra & Rm); [|exact Ea|].
+      { intros k r0 Hk Heq. apply Hroots_old in Hk. subst r0. rewrite Eid in Hk. lia. }
+      destruct (first_load_J m re _ w2 _ wa Hre_node Ea) as (Ja & TKa & OSa).
+      specialize (Ja J2). pose proof (J_nodes wa w3 Tn Ja) as (O3 & CL3).
+      assert (C3 : Core w3) by (eapply Core_same_tree; [apply nfp_same_tree; eauto|exact Ca]).
+      assert (OR3 : OriginsRef T w3).
+      { apply Tail; [eapply tkeep_trans; [apply tkeep_nodes; reflexivity|exact TKa]|].
+        eapply OriginsRef_keep; [exact OSa|exact TKa|exact OR2]. }
+      assert (Hroot3 : m_root x3' = re).
+      { apply nth_opt_roots in Hx3. rewrite Tr, Rm in Hx3. congruence. }
+      rewrite Hroot3 in E10. destruct (dfs_ids_reach _ _ _ _ _ E10) as (Hself & Hsound & Hclosed).
+      split; [|split].
+      * eapply kill_orph; [exact E11|exact O3|]. intros c p Kc Hp.
+        destruct (killedb_false _ _ _ _ Kc) as [Hc|[Hc|Hc]].
+        -- apply killedb_old. assert (c <> re) by (rewrite Eid; lia).
+           destruct Hp as (n & Hn & Hpp). rewrite Tn, Fa in Hn by auto.
+           eapply Hold_par; [exact Hc|]. exists n. split; auto.
+        -- exfalso. destruct Hp as (n & Hn & _). assert (allocated w3 c) as Ha by (eexists; eauto). apply C3 in Ha. lia.
+        -- apply killedb_kept. apply Hsound in Hc. destruct Hc as [Ha|q c Hrq Hl].
+           ++ exfalso. destruct Hp as (n & Hn & Hpp). rewrite Tn in Hn.
+              destruct (c_roots _ Ca _ _ Rm) as (n0 & Hn0 & Hp0). congruence.
+           ++ pose proof (c_up _ C3 _ _ Hl) as Hpq. rewrite (par_fun _ _ _ _ Hp Hpq).
+              apply (dfs_ids_keep _ _ _ _ _ E10). exact Hrq.
+      * eapply kill_chars; eauto.
+      * eapply OriginsRef_keep; [apply osub_models; exact Hmk|exact TKk|exact OR3].
+    + (* merge *)
+      apply wbind_inv in Ea as [(mr & wb & Em & Ea) | (e & Em & [=])].
+      apply wcatch_inv in Em as (mr' & Em & [= ->]).
+      destruct mr' as [um|em].
+      2:{ apply wbind_inv in Ea as [(x1 & w6 & _ & Ea) | (e & _ & [=])].
+          apply wbind_inv in Ea as [(u6 & w7 & _ & Ea) | (e & _ & [=])].
+          apply wfail_inv in Ea as ([=] & _). }
+      apply wret_inv in Ea as (_ & ->).
+      pose proof (JOK_merge_file_data LATEST name_definition_ref m re _ _ _ _ J2 Em) as Jb.
+      destruct (WorldEff_keep _ _ _ (LoadEffects.merge_file_data_effects T LATEST name_definition_ref m re _ _ _ _ Em)) as (TKb & Hmb).
+      pose proof (J_nodes wb w3 Tn Jb) as (O3 & CL3).
+      assert (OR3 : OriginsRef T w3).
+      { apply Tail; [eapply tkeep_trans; [apply tkeep_nodes; reflexivity|exact TKb]|].
+        eapply OriginsRef_keep; [apply osub_models; exact Hmb|exact TKb|exact OR2]. }
+      (* the merge invariant, for the kill *)
+      unfold merge_file_data in Em.
+      apply wbind_inv in Em as [(xm & wm & Em1 & Em) | (e & _ & [=])].
+      apply get_model_inv in Em1 as (xm' & Hxm & [= ->] & ->).
+      rewrite Hx in Hxm. injection Hxm as <-.
+      apply wbind_inv in Em as [(wg & wm & Em2 & Em) | (e & _ & [=])].
+      apply wget_inv in Em2 as ([= ->] & ->).
+      apply wbind_inv in Em as [(ue & we & Eme & Em) | (e & _ & [=])].
+      apply wbind_inv in Em as [(x2 & wm & Em3 & Em) | (e & _ & [=])].
+      apply get_model_inv in Em3 as (x2' & Hx2 & [= ->] & ->).
+      destruct ue.
+      set (rt := m_root x').
+      assert (Hr_root : nth_error (roots w2) (N.to_nat m) = Some rt) by (apply nth_opt_roots; exact Hx).
+      assert (Hr_old : rt < base) by (eapply Hroots_old; rewrite <- Hr_root; reflexivity).
+      assert (Hold_up : forall c p, c < base -> par w2 c p -> p < base).
+      { intros c p Hc Hp. apply (proj1 (st_par _ _ _ _ S12)) in Hp. eauto. }
+      assert (Hrb : parent_in w2 re = PNone).
+      { unfold parent_in. cbn [w_nodes w2]. rewrite Eid. rewrite Hnr. exact Pnr. }
+      assert (Hnew_up : forall c p, base <= c -> par w2 c p -> base <= p).
+      { intros c p Hc Hp. apply (proj1 (st_par _ _ _ _ S12)) in Hp. destruct (N.eq_dec c base) as [->|Hne].
+        - destruct Hp as (n & Hn & Hpp). rewrite Hnr in Hn. injection Hn as <-. congruence.
+        - apply (Cl1 c p); auto. lia. }
+      assert (M0 : MI base rt re w2 [] [] w2).
+      { constructor.
+        - apply Core_mask. exact C2.
+        - reflexivity.
+        - reflexivity.
+        - intros p d _ [].
+        - intros d [].
+        - reflexivity.
+        - reflexivity.
+        - intros y [].
+        - intros c p Hc Hp. left. eapply Hnew_up; eauto. }
+      assert (Hrr : Reach w2 rt rt).
+      { constructor. destruct (c_roots _ C2 _ _ Hr_root) as (n & Hn & _). eexists; eauto. }
+      destruct (merge_ok T LATEST name_definition_ref base rt re w2 C2 Hr_old (ex_intro _ _ Hr_root) Hold_up Hrb
+                         (fuel_of w2) rt (fold_right set_add [] (m_files x')) re (N.of_nat (List.length (w_files w)))
+                         [] [] w2 we M0 Hrr) as (D' & Imp' & (Me & _ & _ & _) & _ & _);
+        [intros []|intros []|rewrite Eid; apply N.le_refl|left; reflexivity|apply Hshared; auto|exact Eme|].
+      assert (Seb : same_tree we wb).
+      { eapply stp_modify_node; [|exact Em]. intros n. split; reflexivity. }
+      pose proof (MI_same_tree _ _ _ _ _ _ _ _ Seb Me) as Mb.
+      assert (Sb3 : same_tree wb w3) by (apply nfp_same_tree; auto).
+      pose proof (MI_same_tree _ _ _ _ _ _ _ _ Sb3 Mb) as M3.
+      assert (Hroot3 : m_root x3' = rt).
+      { apply nth_opt_roots in Hx3. rewrite (mi_roots _ _ _ _ _ _ _ M3), Hr_root in Hx3. congruence. }
+      rewrite Hroot3 in E10. pose proof (dfs_ids_keep _ _ _ _ _ E10) as Hkeep.
+      split; [|split].
+      * eapply kill_orph; [exact E11|exact O3|]. intros c p Kc Hp.
+        destruct (killedb_false _ _ _ _ Kc) as [Hc|[Hc|Hc]].
+        -- apply killedb_old. eapply Hold_up; [exact Hc|].
+           apply par_parent_in. apply par_parent_in in Hp as (Ha & Hpp). split.
+           ++ apply (proj2 (c_alloc _ C2 c)). unfold w2. cbn [w_next]. lia.
+           ++ rewrite <- (mi_par _ _ _ _ _ _ _ M3); [exact Hpp|].
+              intros Hin. apply (mi_imp _ _ _ _ _ _ _ M3) in Hin as (Hb & _). lia.
+        -- exfalso. destruct Hp as (n & Hn & _). assert (allocated w3 c) as Ha by (eexists; eauto).
+           apply (MI_alloc _ _ _ _ _ _ _ _ M3) in Ha. lia.
+        -- apply killedb_kept. apply Hkeep.
+           eapply (MI_reach_up base rt re w2 Hr_old (ex_intro _ _ Hr_root)); [exact M3| |apply Hkeep; exact Hc].
+           eapply A_up; [exact Hp|constructor].
+      * eapply kill_chars; eauto.
+      * eapply OriginsRef_keep; [apply osub_models; exact Hmk|exact TKk|exact OR3].
+Qed.
+
 End Shape.
